@@ -57,6 +57,9 @@ func (r *recorder) emit(e string, kv ...interface{}) {
 	r.mu.Lock()
 	t := int(time.Since(r.t0) / time.Millisecond)
 	r.rec.Emit(e, append(kv, "t", t)...)
+	if journal != nil { // adpclose.go: every event written through at once
+		journal(r, e, append(kv, "t", t))
+	}
 	r.mu.Unlock()
 }
 
